@@ -475,6 +475,19 @@ func (g *genState) scalar() Val {
 }
 
 func genHighPrec(c *simkit.Choices) string {
+	if c.Bool() {
+		// any spelling of the JSON number grammar: signs, fractions, exponents
+		// with explicit + or -, upper and lower case E, very long digit runs
+		switch c.N(3) {
+		case 0:
+			return genScaledDecimal(c)
+		case 1:
+			return genJSONFloatLiteral(c)
+		default:
+			d := strings.Repeat("9", 20+c.N(60))
+			return []string{d, "-" + d, d + "." + d, "1." + d + "e+300", "-0." + d + "E-" + strconv.Itoa(1+c.N(999)), d + "e+" + strconv.Itoa(c.N(5000))}[c.N(6)]
+		}
+	}
 	switch c.N(4) {
 	case 0:
 		return "18446744073709551615"
